@@ -22,6 +22,8 @@ func init() {
 			// count multiplies the number of paths)
 			jobs = append(jobs, J("H_C11_rt", o, "fmt", fmts["e"], "w", 1, "elo", -2, "ehi", 2), J("H_C11_rt", o, "fmt", fmts["e"], "w", 1, "elo", 2147483646, "ehi", 2147483647),
 				J("H_C11_rt", o, "fmt", fmts["e"], "w", 1, "elo", -2147483648, "ehi", -2147483647),
+				// one- to four-digit printed exponents of both signs (the exponent stays symbolic; paths split on its digit count)
+				J("H_C11_rt", o, "fmt", fmts["e"], "w", 1, "elo", -1100, "ehi", 1100),
 				J("H_C11_rt", o, "fmt", fmts["b"], "w", 1, "elo", -1, "ehi", 1), J("H_C11_rt", o, "fmt", fmts["b"], "w", 1, "px", 7, "elo", 100, "ehi", 100),
 				J("H_C11_rt", o, "fmt", fmts["g"], "w", 1, "elo", -5, "ehi", -3), J("H_C11_rt", o, "fmt", fmts["g"], "w", 1, "elo", 20, "ehi", 22), J("H_C11_rt", o, "fmt", fmts["m"], "w", 1, "elo", 0, "ehi", 1))
 			if tier == "thorough" {
@@ -32,7 +34,7 @@ func init() {
 			return jobs
 		},
 		Bounds: map[string]string{
-			"quick":    "x of one word (19 digits, every digit pattern incl. trailing zeros), every sign: format e with exponents -2..2 and at both ends of the int32 range; g with exponents -5..-3 and 20..22 (the %e/%f decision boundaries), MarshalText with exponents 0..1; b (precision 19 and 7); zeros and infinities for all of e E f g G p b and MarshalText. Parse(Append(x, fmt, -1)) into a receiver of 19 digits yields the same form, sign, exponent and mantissa value with accuracy Exact; for e/E/p exactly MinPrec significant digits are printed.",
+			"quick":    "x of one word (19 digits, every digit pattern incl. trailing zeros), every sign: format e with exponents -1100..1100 (every exponent digit count up to four, both signs) and at both ends of the int32 range; g with exponents -5..-3 and 20..22 (the %e/%f decision boundaries), MarshalText with exponents 0..1; b (precision 19 and 7); zeros and infinities for all of e E f g G p b and MarshalText. Parse(Append(x, fmt, -1)) into a receiver of 19 digits yields the same form, sign, exponent and mantissa value with accuracy Exact; for e/E/p exactly MinPrec significant digits are printed.",
 			"thorough": "e with the full int32 exponent range; E (-30..30), p (-3..3), g/G/MarshalText (-6..23), f (-3..3 and 18..21).",
 		},
 		Outside:     []string{"encoding/json framing (quotes around MarshalText's output)", "mantissas above 2 words; format f outside exponents -3..21 (output length grows with the exponent)"},
@@ -48,23 +50,31 @@ func init() {
 			var jobs []*sym.Job
 			jobs = append(jobs, J("H_C13_fmt", o, "fmt", 'f', "P", 2, "elo", -3, "ehi", 3), J("H_C13_fmt", o, "fmt", 'f', "P", 0, "elo", -1, "ehi", 2),
 				J("H_C13_fmt", o, "fmt", 'f', "P", 3, "elo", -7, "ehi", -3), J("H_C13_fmt", o, "fmt", 'e', "P", 0, "elo", -2, "ehi", 2), J("H_C13_fmt", o, "fmt", 'E', "P", 2, "elo", 98, "ehi", 102))
+			// %g: rounding to P digits, trailing zeros dropped, %e/%f decision at exponents < -4 and >= P
+			jobs = append(jobs, J("H_C13_fmt", o, "fmt", 'g', "P", 3, "elo", -4, "ehi", -3), J("H_C13_fmt", o, "fmt", 'g', "P", 2, "elo", 2, "ehi", 3), J("H_C13_fmt", o, "fmt", 'G', "P", 0, "elo", 0, "ehi", 1),
+				J("H_C13_fmt", o, "fmt", 'g', "P", 21, "elo", 0, "ehi", 1))
+			// Format behind the fmt verbs: flags, width and presence of a precision symbolic
+			for _, verb := range []int{'e', 'E', 'f', 'F', 'g', 'G', 'v'} {
+				jobs = append(jobs, J("H_C13_format", o, "verb", verb, "v", 15, "e", -1), J("H_C13_format", o, "verb", verb, "fx", 2), J("H_C13_format", o, "verb", verb, "fx", 0))
+			}
 			for _, f := range []int{'e', 'f', 'g', 'G', 'p', 'b'} {
 				jobs = append(jobs, J("H_C13_zero", o, "fmt", f), J("H_C13_zero", o, "fmt", f, "P", 3))
 			}
 			if tier == "thorough" {
 				jobs = append(jobs, J("H_C13_fmt", o, "fmt", 'e', "P", 2, "elo", -3, "ehi", 3), J("H_C13_fmt", o, "fmt", 'e', "P", 18, "elo", 0, "ehi", 1), J("H_C13_fmt", o, "fmt", 'e', "P", 25, "elo", 0, "ehi", 1),
-					J("H_C13_fmt", o, "fmt", 'f', "P", 5, "elo", -8, "ehi", 8), J("H_C13_fmt", o, "fmt", 'f', "P", 20, "elo", -2, "ehi", 2), J("H_C13_fmt", o, "fmt", 'f', "P", 1, "elo", 18, "ehi", 24))
+					J("H_C13_fmt", o, "fmt", 'f', "P", 5, "elo", -8, "ehi", 8), J("H_C13_fmt", o, "fmt", 'f', "P", 20, "elo", -2, "ehi", 2), J("H_C13_fmt", o, "fmt", 'f', "P", 1, "elo", 18, "ehi", 24),
+					J("H_C13_fmt", o, "fmt", 'g', "P", 3, "elo", -6, "ehi", -2), J("H_C13_fmt", o, "fmt", 'g', "P", 2, "elo", 0, "ehi", 5), J("H_C13_fmt", o, "fmt", 'G', "P", 1, "elo", -5, "ehi", 2), J("H_C13_fmt", o, "fmt", 'g', "P", 4, "elo", 3, "ehi", 5))
 			}
 			return jobs
 		},
 		Bounds: map[string]string{
-			"quick":    "Append with an explicit precision, x of one word, every rounding mode and sign: %f with P in {0,2,3} and exponents -7..3 (including rounding positions at and above the leading digit), %e/%E with P in {0,2} around exponents 0 and 100 (two- vs three-digit exponent): output bytes equal the layout of the once-rounded value byte for byte. Zeros: for e f g G p b (precision -1 and 3) the text of +-0 is the same whatever exponent and buffer the zero kept from an earlier finite value.",
-			"thorough": "%e with P in {2,18,25}, %f with P in {1,5,20} and exponents up to 24.",
+			"quick":    "Append with an explicit precision, x of one word, every rounding mode and sign: %f with P in {0,2,3} and exponents -7..3 (including rounding positions at and above the leading digit), %e/%E with P in {0,2} around exponents 0 and 100 (two- vs three-digit exponent), %g/%G with P in {0,2,3,21} at the %e/%f decision boundaries (exponents -4..-3, 2..3; trailing zeros dropped; P above the digit count): output bytes equal the layout of the once-rounded value byte for byte. Format (verbs e E f F g G v) for +-1.5, +-0 and +-Inf: every combination of the '+', '-', ' ', '0' flags that fmt can pass, widths 0..12 or none, precision 2 or none, against fmt's float layout (sign choice, zero padding between sign and digits, infinities never zero padded). Zeros: for e f g G p b (precision -1 and 3) the text of +-0 is the same whatever exponent and buffer the zero kept from an earlier finite value.",
+			"thorough": "%e with P in {2,18,25}, %f with P in {1,5,20} and exponents up to 24, %g/%G with P in {1,2,3,4} over exponents -6..5.",
 		},
-		Outside:     []string{"%g/%G with an explicit precision, Format's flag/width handling (fmt.State plumbing) and the p/b formats are not covered by this check", "mantissas above one word"},
+		Outside:     []string{"the p/b formats; the '#' flag; fmt's own treatment of %+v (plusV) which a Formatter cannot observe; Format's digits only for a fixed magnitude (the digits are the Append jobs' obligation); %g only at the listed precisions and exponent windows", "mantissas above one word"},
 		Assumptions: []string{"reference layout written in harness/decimal/c13_format.go (roundAt + digit placement); strconv.AppendInt modelled", archNote},
-		LevelText:   "Bounded symbolic model checking of Append(x, 'e'|'E'|'f', P): the printed bytes (symbolic digit terms) are proved equal to the reference layout of x rounded once under x's mode at the requested position, for all values in the bound.",
-		LevelNote:   "Partial: %g and Format are not claimed. " + trusted,
+		LevelText:   "Bounded symbolic model checking of Append(x, 'e'|'E'|'f'|'g'|'G', P): the printed bytes (symbolic digit terms) are proved equal to the reference layout of x rounded once under x's mode at the requested position, for all values in the bound.",
+		LevelNote:   "Partial: Format's layout is decided for fixed magnitudes only. " + trusted,
 		Timeout:     map[string]time.Duration{"quick": 150 * time.Second, "thorough": 300 * time.Second},
 	})
 }
